@@ -110,3 +110,19 @@ func join(x []string) string {
 	}
 	return out
 }
+
+// HashString returns a short stable hash of s.
+func HashString(s string) string {
+	var h uint64 = 1469598103934665603
+	for i := 0; i < len(s); i++ {
+		h ^= uint64(s[i])
+		h *= 1099511628211
+	}
+	const hexd = "0123456789abcdef"
+	b := make([]byte, 16)
+	for i := 15; i >= 0; i-- {
+		b[i] = hexd[h&15]
+		h >>= 4
+	}
+	return string(b)
+}
